@@ -99,7 +99,6 @@ def main():
         checks.append({
             "property_id": p,
             "quick_cmd": "bin/check %s --tier quick" % p,
-            "thorough_cmd": "bin/check %s --tier thorough" % p,
             "evidence_file": "/verif/evidence/%s.json" % p,
             "replay_cmd_template": "bin/check %s --replay {path}" % p,
             "engine": "tlc+harness",
@@ -107,6 +106,8 @@ def main():
             "level_note": c["note"],
             "technique": c["technique"],
         })
+        if p in THOROUGH_VALIDATED:
+            checks[-1]["thorough_cmd"] = "bin/check %s --tier thorough" % p
     man = {
         "version": 1,
         "setup_cmd": "bin/setup",
@@ -133,6 +134,8 @@ def main():
 
 
 HOOK_COMMITS = ["44d0fad"]
+# a thorough tier is registered only once it has been run to completion, quiet, on the unchanged tree
+THOROUGH_VALIDATED = {"C06", "C07"}
 NOT_APPLICABLE = {}
 
 if __name__ == "__main__":
